@@ -527,6 +527,52 @@ func (r *conc14Runner) stressImmunity(seed int64, nw, nops int) {
 	}
 }
 
+// stressImmunityClear: iteration with a callback that yields (a caller's callback may take its time) against Clear, adds,
+// removals and immunizations on a cache of several chunks: nothing may block for good, and the views agree at the end
+func (r *conc14Runner) stressImmunityClear(seed int64, nw, nops int) {
+	c, err := immunitycache.NewImmunityCache(immunitycache.CacheConfig{Name: "c14c", NumChunks: 4, MaxNumItems: 64, MaxNumBytes: 100000, NumItemsToPreemptivelyEvict: 8})
+	if err != nil {
+		panic(err)
+	}
+	for i := 0; i < 24; i++ {
+		c.HasOrAdd([]byte{0xee, byte(i)}, []byte{byte(i)}, 10)
+	}
+	if !r.parallel("immunity-clear", nw, func(w int, rng *rand.Rand) {
+		for i := 0; i < nops; i++ {
+			k := []byte{byte(w), byte(rng.Intn(64))}
+			switch x := rng.Intn(100); {
+			case x < 45:
+				c.HasOrAdd(k, []byte{1}, rng.Intn(40))
+			case x < 55:
+				c.Remove(k)
+			case x < 62:
+				c.ImmunizeKeys([][]byte{k})
+			case x < 70:
+				_, _ = c.Get(k)
+				_ = c.Keys()
+				_ = c.Len()
+			case x < 90:
+				n := 0
+				c.ForEachItem(func(key []byte, v interface{}) {
+					n++
+					if n%3 == 0 {
+						time.Sleep(20 * time.Microsecond)
+					} else {
+						runtime.Gosched()
+					}
+				})
+			default:
+				c.Clear()
+			}
+		}
+	}, seed) {
+		return
+	}
+	if c.Len() != len(c.Keys()) {
+		r.add("C14", "immunity-views-disagree-after-concurrency", fmt.Sprintf("immunity-clear seed=%d: Len=%d, Keys=%d", seed, c.Len(), len(c.Keys())))
+	}
+}
+
 type cacherLike interface {
 	Put(key []byte, value interface{}, sizeInBytes int) bool
 	HasOrAdd(key []byte, value interface{}, sizeInBytes int) (bool, bool)
@@ -645,6 +691,8 @@ func (r *conc14Runner) Exec(line string) string {
 		r.stressTxPool(seed, nw, nops, true)
 	case "immunity":
 		r.stressImmunity(seed, nw, nops)
+	case "immunity-clear":
+		r.stressImmunityClear(seed, nw, nops)
 	case "txremove-race":
 		r.stressTxRemoveRace(seed)
 	case "immunize-race":
@@ -675,7 +723,7 @@ func (conc14Comp) Gen(rng *rand.Rand, tier string) [][]string {
 	if tier == "thorough" {
 		rounds, nops = 12, 1500
 	}
-	targets := []string{"txpool", "txadds", "txremove-race", "immunity", "immunize-race", "lru", "sizelru", "fifo", "timecache", "cmap", "unit", "adapter"}
+	targets := []string{"txpool", "txadds", "txremove-race", "immunity", "immunity-clear", "immunize-race", "lru", "sizelru", "fifo", "timecache", "cmap", "unit", "adapter"}
 	var hs [][]string
 	h := []string{"begin conc14"}
 	for round := 0; round < rounds; round++ {
